@@ -1,2 +1,8 @@
--- Root of the `Dalek` library: model (Mathlib-free) and proofs.
+-- Root of the `Dalek` library: model (Mathlib-free), proofs and property theorems.
 import Dalek.Driver.All
+import Dalek.IR.LimbSound
+import Dalek.IR.AlgSound
+import Dalek.Gen.Norm.All
+import Dalek.Proofs.EdwardsGroup
+import Dalek.Proofs.FieldFacts
+import Dalek.Props.All
